@@ -348,16 +348,20 @@ def replay(w):
                     imf = S.sift(x, max_imfs=w.get('cap'), **kw)
                 else:
                     mfs = [0.25, 0.12, 0.06, 0.03, 0.015][:w.get('cap') or 5]
-                    imf = S.mask_sift(x, mask_freqs=mfs, mask_amp=0.5, mask_amp_mode='abs', nphases=w.get('nphases', 4), max_imfs=w.get('cap') or 5, **kw)
+                    am = w.get('amp_mode', 'abs')
+                    imf = S.mask_sift(x, mask_freqs=mfs, mask_amp=0.5, mask_amp_mode=am, nphases=w.get('nphases', 4), max_imfs=w.get('cap') or 5, **kw)
                 for k in range(imf.shape[1]):
                     resid = x[:, None] - imf[:, :k].sum(axis=1)[:, None] if k else x[:, None].copy()
                     if w['variant'] == 'sift':
                         comp, _ = S.get_next_imf(resid, **kw['imf_opts'], envelope_opts=kw['envelope_opts'], extrema_opts=kw['extrema_opts'])
                     else:
-                        comp, _ = S.get_next_imf_mask(resid, mfs[k], 0.5, nphases=w.get('nphases', 4), **kw)
+                        # documented mask amplitude of layer k: absolute; a ratio of the standard deviation of the INPUT (every layer); or a
+                        # ratio of the standard deviation of the input for the first layer and of the previous IMF for the later ones
+                        amp_k = 0.5 if am == 'abs' else 0.5 * np.std(x) if (am == 'ratio_sig' or k == 0) else 0.5 * np.std(imf[:, k - 1])
+                        comp, _ = S.get_next_imf_mask(resid, mfs[k], amp_k, nphases=w.get('nphases', 4), **kw)
                     if not np.allclose(comp[:, 0], imf[:, k], rtol=1e-10, atol=1e-10):
-                        return True, 'component %d of %s(%s) is not the %ssingle-IMF extraction, under the same options, of the input minus the first %d components (max diff %.3g)' % (
-                            k, w['variant'], o, 'masked ' if w['variant'] != 'sift' else '', k, np.abs(comp[:, 0] - imf[:, k]).max())
+                        return True, 'component %d of %s(%s%s) is not the %ssingle-IMF extraction, under the same options, of the input minus the first %d components (max diff %.3g)' % (
+                            k, w['variant'], o, ', mask_amp_mode=%s' % w['amp_mode'] if w.get('amp_mode') else '', 'masked ' if w['variant'] != 'sift' else '', k, np.abs(comp[:, 0] - imf[:, k]).max())
             except emd.support.EMDSiftCovergeError:
                 return False, 'convergence error (C04)'
             except Exception as ex:
@@ -466,6 +470,17 @@ def refute(tier, seed, emit):
                 ok, msg = replay(w)
                 if ok:
                     emit.violation('kth-component-is-extraction-from-residual:same-options:%s' % variant, w, msg)
+        if emit.full:
+            return
+    emit.scope('%d signals x mask_sift with mask_amp_mode {abs, ratio_sig, ratio_imf} x nphases {1, 4}: component k is the masked extraction of the input minus the components before it with the DOCUMENTED mask amplitude of layer k (absolute / ratio of the input / ratio of the previous IMF)' % min(nsig, 3))
+    for si in range(min(nsig, 3)):
+        for am in ('abs', 'ratio_sig', 'ratio_imf'):
+            for nph in (4, 1):
+                emit.case(('peel_amp', si, am, nph), contract='mask_sift')
+                w = {'kind': 'peel_opts', 'sig': si, 'variant': 'mask_sift', 'opts': {}, 'cap': 4, 'nphases': nph, 'amp_mode': am}
+                ok, msg = replay(w)
+                if ok:
+                    emit.violation('kth-component-is-extraction-from-residual:mask-amplitude-mode:%s' % am, w, msg)
         if emit.full:
             return
     caps = [1, 2, 3, 6, 9] if tier == 'quick' else [1, 2, 3, 4, 6, 9, 12]      # (caps above the natural number of IMFs included)
